@@ -97,6 +97,14 @@ def nd_case(rng, tier):
         names, per, ax = ["x", "y", "xy"], [0, 1], 2
         cell[ax] = F(rng.choice([1, 2, 4]), rng.choice([1, 2, 4, 8]))
     if bc_kw is None and nd >= 2 and rng.random() < 0.12:
+        # the derivative along a dimension named like a Mesh attribute ('V' -> mesh.dV is the cell VOLUME,
+        # 'n' -> mesh.n, 'x' ...): the spacing is the cell LENGTH along that axis
+        names = rng.sample(["x", "y", "z", "q"], nd)
+        names[ax] = rng.choice(["V", "V", "n", "S"])
+        per = [a for a in per if a != ax or rng.random() < 0.5]
+        cell = [F(rng.choice([3, 5]), rng.choice([2, 4, 8])) for _ in range(nd)]       # volume != any length
+        cell[ax] = F(rng.choice([1, 2, 4]), rng.choice([1, 2, 4, 8]))                  # (dyadic spacing: exact)
+    elif bc_kw is None and nd >= 2 and rng.random() < 0.12:
         # two dimensions whose names differ only in case: one periodic, the derivative along the OTHER one is open
         lo_, up_ = rng.choice([("x", "X"), ("a", "A"), ("t", "T"), ("n", "N")])
         rest = rng.sample(["y", "z", "q"], nd - 2)
